@@ -1,11 +1,27 @@
 import RisorModel.Util
 import RisorModel.C20.Model
+import RisorModel.C01.PrattOracle
+import RisorModel.C20.ParseNewline
 /-! Line-protocol front end of the C20 model (requests after the leading `C20` field).
 
   lex  <src-utf8-hex>                      → ok TAB tok;tok;…   tok = kindhex,lithex,sChar,sLine,sCol,sLS,eChar,eLine,eCol,eLS
                                              (an error ends the stream: E,cls[,kindhex,lithex,positions…])
   diag <src-utf8-hex> <start> <end> <eof>  → quotedhex TAB line TAB col TAB endCol TAB renderOk TAB diagOk TAB singleLine
   kl   <src-utf8-hex>                      → kinds and literals only (layout comparisons)
+  parsenl <tokens> <tree|-> <nls|-> <commas|->
+       tokens: the REAL lexer's tokens of one expression text with line breaks, `typehex:lithex`
+               items joined by `,` (the encoding of `C01 pratt check`), without the final EOF
+       tree:   the expression tree (S-expression of harness/gen.go) the text was printed from
+       nls:    the layout: one item per permitted gap, left to right, joined by `.`; an item is `0`
+               (no newline) or one letter per NEWLINE token, `n` = literal "\n", `r` = "\r\n"
+       commas: one `0`/`1` per gap (trailing comma at a before-closing-bracket gap)
+       → ok TAB parsed TAB roundtrip TAB render
+       parsed:    canonical S-expression of what the Pratt model `parseExpr` returns on the tokens
+                  when it consumes them all; `none` when it fails; `leftover` when tokens remain
+       roundtrip: 1 when `parseExpr` returned exactly the tree, else 0 (`-` without tree)
+       render:    `same` when `renderNLTop (Layout.ofLists nls commas) tree` (the object of
+                  `parse_newline_invariant`) equals the token list, otherwise the hex of Lean's
+                  rendering as text; `-` without tree or layout
 -/
 namespace Risor.C20
 open Risor.Util
@@ -57,7 +73,53 @@ def unsupported (ts : List PTok) : Bool :=
     | .err "unsupported" => true
     | _ => false
 
+/-- one item per gap: `0` for no newline, otherwise one letter per NEWLINE token, `n` for the
+    literal "\n" and `r` for "\r\n" -/
+def decodeGap (item : String) : Option (List String) :=
+  if item == "0" then some []
+  else item.toList.mapM fun c => if c == 'n' then some "\n" else if c == 'r' then some "\r\n" else none
+
+def decodeNls (field : String) : Option (List (List String)) :=
+  if field == "-" then some [] else (field.splitOn ".").mapM decodeGap
+
+def decodeCommas (field : String) : List Bool :=
+  if field == "-" then [] else field.toList.map (· == '1')
+
+/-- the Pratt model of C01 on the real tokens of a text with line breaks, and the layout printer
+    of ParseNewline.lean on the tree and the harness's layout -/
+def handleParseNl (toksField treeField nlsField commasField : String) : String :=
+  open Risor.C01.Pratt in
+  match decodeTokens toksField with
+  | .error why => "unsupported\t" ++ why
+  | .ok toks =>
+    let fuel := 3 * toks.length + 20
+    let parsed := parseExpr fuel Level.LOWEST.num toks
+    let parsedText := match parsed with
+      | some (e, []) => showExpr e
+      | some (_, _) => "leftover"
+      | none => "none"
+    if treeField == "-" then "ok\t" ++ parsedText ++ "\t-\t-"
+    else
+      match Risor.C01.parseSX treeField.toList with
+      | none => "unsupported\tcannot read the tree"
+      | some (sx, _) =>
+        match toExpr sx with
+        | none => "unsupported\ttree outside the expression core"
+        | some tree =>
+          let rt := match parsed with
+            | some (e, []) => decide (e = tree)
+            | _ => false
+          let rend :=
+            if nlsField == "-" then "-"
+            else match decodeNls nlsField with
+              | none => "-"
+              | some ns =>
+                let r := NL.renderNLTop (NL.Layout.ofLists ns (decodeCommas commasField)) tree
+                if r == toks then "same" else hx (tokensText r)
+          "ok\t" ++ parsedText ++ "\t" ++ (if rt then "1" else "0") ++ "\t" ++ rend
+
 def handle : List String → String
+  | ["parsenl", toks, tree, nls, commas] => handleParseNl toks tree nls commas
   | ["lex", h] =>
     match srcOf h with
     | some src =>
